@@ -51,6 +51,7 @@ QB = ((0.13, 0.87), (0.91, 0.12))      # a different query (all four points dist
 QSWAP = (QA[1], QA[0])
 QH = ((0.25, 0.5), (0.75, 0.5))        # axis-aligned, all coordinates dyadic: the straight path's cost EQUALS the heuristic bit for bit
 QINV = ((0.33, 0.3), (0.9, 0.9))       # start inside the wall
+QGINV = ((0.1, 0.1), (0.33, 0.3))      # goal inside the wall
 THR = 0.05
 CAP = 3000                             # probe budget (evaluations) when looking for the first solution
 
@@ -165,6 +166,10 @@ def histories(tier):
         "free-exact-dyadic": lambda k, K: [qx("setpd", QH, 2.220446049250313e-16), "solve %d" % k, "solve %d" % K, "solve %d" % k,
                                            "clear", "solve %d" % k],
         "swap": lambda k, K: [q("setpd", QA), "solve %d" % K, "clear", q("setsg", QSWAP), "solve %d" % k, "solve %d" % K],
+        # round 10 (lead from eng-c01): the goal state lies inside an obstacle.  Whatever the planner makes of it (INVALID_GOAL,
+        # an approximate solution, TIMEOUT) it must not crash, at any k, also when resumed, cleared and given a valid query
+        "invalid-goal": lambda k, K: [q("setpd", QGINV), "solve %d" % k, "solve %d" % K, "getpd", "clear", "solve %d" % k, q("setpd", QA),
+                                      "clear", "solve %d" % K],
         "invalid-start": lambda k, K: [q("setpd", QINV), "solve %d" % k, "addstart " + pt(QA[0]), "solve %d" % k,
                                        "solve %d" % K],
     }
@@ -258,13 +263,13 @@ def oracle(planner, ops, out, rc, err):
     multi = planner in MULTI
     ctx = contexts(ops)
     n_ops = len(ops)
-    valid_start = False
+    valid_start = valid_goal = False
     solved_since_clear = roadmap_old = False
     if out is None:
         return [(0, "no-return", "the process did not finish within the process timeout")]
     for i, ln in enumerate(ops):
         if i >= len(out):
-            fails.append((i, "crash", "no output for this op (rc=%s): %s" % (rc, sanitizer_summary(err)), {"where": crash_site(err)}))
+            fails.append((i, "crash", "no output for this op (rc=%s): %s" % (rc, sanitizer_summary(err)), {"where": crash_site(err), "where_planner": crash_site_planner(err)}))
             return fails
         o = out[i]
         op = opname(ln)
@@ -295,6 +300,7 @@ def oracle(planner, ops, out, rc, err):
             roadmap_old = True
         if op in ("setpd", "setpdg", "setsg", "mutpd"):
             valid_start = kv(o).get("svalid") == "1"
+            valid_goal = kv(o).get("gvalid") == "1"
         elif op == "addstart":
             valid_start = valid_start or kv(o).get("svalid") == "1"
         if op != "solve":
@@ -317,6 +323,8 @@ def oracle(planner, ops, out, rc, err):
         if st == "INVALID_START" and valid_start:
             fails.append((i, "invalid-start", "INVALID_START although the problem definition holds a valid start state",
                           {"evals0": d.get("evals") == "0", "after_clearQuery": any(opname(x) == "clearQuery" for x in ops[:i])}))
+        if st == "INVALID_GOAL" and valid_goal:
+            fails.append((i, "invalid-goal", "INVALID_GOAL although the goal state of the problem definition is valid"))
         if st == "INFEASIBLE" and d["exact"] == "1":
             fails.append((i, "infeasible-with-solution", "INFEASIBLE (\"the planner decided that the problem is infeasible\") while the "
                                                          "problem definition holds an exact solution"))
@@ -357,7 +365,7 @@ def oracle(planner, ops, out, rc, err):
             if s["ctl"] == "0":
                 fails.append((i, "control-shape", "control path #%d: controls/durations do not match the states" % s["idx"]))
     if len(out) <= n_ops:
-        fails.append((n_ops, "crash", "no end line (rc=%s): %s" % (rc, sanitizer_summary(err)), {"where": crash_site(err)}))
+        fails.append((n_ops, "crash", "no end line (rc=%s): %s" % (rc, sanitizer_summary(err)), {"where": crash_site(err), "where_planner": crash_site_planner(err)}))
         return fails
     e = kv(out[n_ops])
     if e.get("live") != "0":
@@ -378,6 +386,12 @@ def oracle(planner, ops, out, rc, err):
 def crash_site(err):
     """innermost ompl:: frame of a sanitizer report"""
     where = re.findall(r"#\d+ 0x[0-9a-f]+ in (ompl::[^\s(]+)", err or "")
+    return where[0] if where else "-"
+
+
+def crash_site_planner(err):
+    """innermost frame of a sanitizer report that lies in a planner (ompl::geometric / ompl::control / ompl::multilevel)"""
+    where = re.findall(r"#\d+ 0x[0-9a-f]+ in (ompl::(?:geometric|control|multilevel)::[^\s(]+)", err or "")
     return where[0] if where else "-"
 
 
@@ -857,8 +871,6 @@ def lockstep(ck, rn, seed, hname, k, K, ops, planner="RRT"):
 
 
 # ---------------------------------------------------------------------------------- lock-step (PRM query bookkeeping)
-QGINV = ((0.1, 0.1), (0.33, 0.3))      # goal inside the wall
-
 
 def prm_history(k):
     kk = min(k, 13)
